@@ -11,15 +11,58 @@ from harness import common as C
 from harness import c17_translate as T
 
 PROP = "C17"
-COQ_TARGETS = ["Props/C17.vo", "Extract/ExtractC17.vo"]
+# FIXED=1 (default): the tree under test contains the fix: commits for C17-F1..F8 -- the repaired model
+# (`all_fixes`) is compared, the oracle demands the full statement (none of the former finding classes
+# is accepted) and Props/C17Now.v (facts about the repaired translation) is built.
+# FIXED=0: the tree before the fixes, compared with `no_fixes`; the former findings are recognised again.
+FIXED = int(os.environ.get("VERIF_C17_FIXED", "1"))
+COQ_TARGETS = ["Props/C17.vo", "Extract/ExtractC17.vo"] + (["Props/C17Now.vo"] if FIXED else [])
 DRIVERS = ["c17"]
 
-# Which of the proposed repairs the tree under test contains (model flag `fixes`):
-# reorder, factor, match, copy, gaps.  All False = the code as it is at /repo.
-IMPL_FIXES = {"reorder": False, "factor": False, "match": False, "copy": False, "gaps": False}
-for _k in os.environ.get("VERIF_C17_FIXES", "").split(","):     # e.g. VERIF_C17_FIXES=reorder,factor,gaps
-    if _k.strip() in IMPL_FIXES:
-        IMPL_FIXES[_k.strip()] = True
+FIX_KEYS = ("reorder", "factor", "match", "copy", "gaps", "disjoint")
+IMPL_FIXES = {k: bool(FIXED) for k in FIX_KEYS}
+
+# the findings repaired by the fix: commits; only consulted with FIXED=0
+LEGACY_FINDINGS = {
+ "C17-F1": {
+  "what": "reorder_columns with keep_others=true appends the first file's extra columns to its own column_order (and to the caller's parameter list): parameters are mutated and a later file with other columns fails with MissingReorderedColumns or is ordered differently",
+  "class": "the only parameters that differ after the run belong to reorder_columns operations with keep_others=true whose column_order was extended (old list is a prefix of the new one); order-dependence is attributed to it only in runs where that mutation happened"
+ },
+ "C17-F2": {
+  "what": "factor_column without factor_values (len(None)) or with factor_values but without factor_names (None[index]) passes RemodelerValidator and raises TypeError in do_op",
+  "class": "TypeError raised inside a factor_column operation whose parameters lack factor_values or factor_names, on a table for which the documented meaning prescribes a result"
+ },
+ "C17-F3": {
+  "what": "merge_consecutive without the optional match_columns passes RemodelerValidator and raises TypeError (set(None)) in do_op",
+  "class": "TypeError raised inside a merge_consecutive operation whose parameters lack match_columns, on a table for which the documented meaning prescribes a result"
+ },
+ "C17-F4": {
+  "what": "split_rows with a new_events entry without the optional copy_columns passes RemodelerValidator and raises KeyError('copy_columns') in _split_rows",
+  "class": "KeyError 'copy_columns' raised inside a split_rows operation one of whose new_events entries lacks copy_columns"
+ },
+ "C17-F5": {
+  "what": "remap_columns whose map has exactly two distinct keys fails in KeyMap._remap: pd.Series(self.map_dict) lets pandas 3 infer a RangeIndex from the two 64-bit key hashes and their difference overflows int64 (ValueError: Length of values (2) does not match length of index)",
+  "class": "ValueError 'Length of values (2) ...' raised inside a remap_columns operation with exactly two distinct keys whose Python hashes differ by at least 2**63 (recomputed by the check)"
+ },
+ "C17-F6": {
+  "what": "merge_consecutive with set_durations=true raises IndexError in _update_durations when the group numbers produced by _get_remove_groups have a gap (a run of the event code with nothing to merge before a run that merges): it iterates range(max_group) and indexes an empty group",
+  "class": "IndexError raised inside a merge_consecutive operation with set_durations=true on a table for which the documented meaning prescribes a result"
+ },
+ "C17-F7": {
+  "what": "remap_columns whose source_columns/destination_columns overlap or repeat a name passes RemodelerValidator but the Dispatcher constructor raises (KEY_AND_TARGET_COLUMNS_NOT_DISJOINT / InvalidIndexError / ValueError)",
+  "class": "Dispatcher constructor raises for a validated list containing a remap_columns operation whose source_columns + destination_columns are not pairwise distinct"
+ },
+ "C17-F8": {
+  "what": "merge_consecutive with set_durations=true raises AttributeError ('int' object has no attribute 'max') in _update_durations when the onset and duration cells of the anchor row are plain Python numbers (both columns of object dtype, e.g. because each holds an n/a): `.sum(skipna=True).max()` calls .max() on a scalar",
+  "class": "AttributeError with message \"'int' object has no attribute 'max'\" raised inside a merge_consecutive operation with set_durations=true on a table for which the documented meaning prescribes a result (pandas-dtype dependent; not part of the Coq model)"
+ }
+}
+
+
+def known(fid):
+    """A former finding id is accepted only when checking the code before the fixes."""
+    return fid if (fid and not FIXED) else None
+
 
 TRUSTED = [
     "Model/Remodel.v is a hand transcription of Dispatcher.run_operations/prep_data/post_proc_data/parse_operations, "
@@ -31,6 +74,9 @@ TRUSTED = [
     "(harness/c17_translate.py) on every run",
     "pandas (DataFrame.drop/rename/loc/merge/sort_values/to_numeric/fillna/replace, dtype inference, Series.equals) and "
     "jsonschema are modelled, not verified",
+    "the repairs of C17-F5 (pd.Series built from the hash-keyed dict) and C17-F8 (.max() on a scalar sum) concern "
+    "pandas dtype/hash-seed effects that the model never contained: that they no longer occur is established by "
+    "testing only (old witnesses in the corpus + every generated case must agree with the model, which has no such failure)",
 ]
 ASSUMPTIONS = [
     "cells are strings, integer-valued numbers or n/a; float formatting and pandas dtype inference are outside the model; "
@@ -82,7 +128,7 @@ def table_sx(t):
 
 def sx_line(case, fixes=None):
     fx = fixes or IMPL_FIXES
-    f = [1 if fx[k] else 0 for k in ("reorder", "factor", "match", "copy", "gaps")]
+    f = [1 if fx[k] else 0 for k in FIX_KEYS]
     return C.to_sx([f, jsx(case["ops"]), [table_sx(t) for t in case["tables"]]])
 
 
@@ -557,12 +603,12 @@ def oracle(case, r, res):
         bad = [op for op in ops if op["operation"] == "remap_columns" and
                len(set(op["parameters"]["source_columns"] + op["parameters"]["destination_columns"])) !=
                len(op["parameters"]["source_columns"] + op["parameters"]["destination_columns"])]
-        res.report("valid-runs", c, f"Dispatcher constructor raised {r['ctor']}", fid="C17-F7" if bad else None)
+        res.report("valid-runs", c, f"Dispatcher constructor raised {r['ctor']}", fid=known("C17-F7" if bad else None))
         return
     mutated = reorder_mutated(ops, r)
     if any(r["changed"]):
         res.report("parameters-unchanged", c, f"after={json.dumps(r['params_after'])[:200]}",
-                   fid="C17-F1" if mutated else None)
+                   fid=known("C17-F1" if mutated else None))
     multiset = order_sensitive(ops)
     for k, (t, out) in enumerate(zip(case["tables"], r["results"])):
         ck = {"ops": ops, "tables": case["tables"], "position": k}
@@ -574,7 +620,7 @@ def oracle(case, r, res):
             tables_equal(out["ok"], fr["ok"], bool(multiset)) if "ok" in out else out["exn"] == fr["exn"])
         if not same and multiset is not None:
             res.report("order-independent", ck, f"in sequence: {str(out)[:150]} fresh: {str(fr)[:150]}",
-                       fid="C17-F1" if mutated else None)
+                       fid=known("C17-F1" if mutated else None))
         # documented meaning / runs to completion, judged on the fresh run (history-free)
         sp = spec_run(ops, t)
         if sp[0] == "na" or multiset is None or merge_na_risk(ops, t):
@@ -584,7 +630,7 @@ def oracle(case, r, res):
                 res.report("documented-error", ck, f"an error is prescribed, got {str(fr['ok'])[:150]}")
             continue
         if "exn" in fr:
-            res.report("valid-runs", ck, f"{fr['exn']}: {fr.get('msg')}", fid=classify_crash(ops, fr))
+            res.report("valid-runs", ck, f"{fr['exn']}: {fr.get('msg')}", fid=known(classify_crash(ops, fr)))
             continue
         bad_cells = [x for row in fr["ok"]["rows"] for x in row if isinstance(x, str) and x.endswith("!") is False and
                      (x.startswith("float!") or x.startswith("obj!") or x.startswith("bool!"))]
@@ -619,7 +665,8 @@ def compare_model(case, r, m):
     if multiset is None:
         return None
     states, outs = m[1], m[2]
-    if any("exn" in out and classify_crash(case["ops"], out) in ("C17-F5", "C17-F8") for out in r["results"]):
+    if not FIXED and any("exn" in out and classify_crash(case["ops"], out) in ("C17-F5", "C17-F8")
+                         for out in r["results"]):
         return None                  # pandas dtype/hash-seed effects (known findings), deliberately not in the model
     for i, (st, ch) in enumerate(zip(states, r["changed"])):
         if (st[0] == "1") != ch:
@@ -631,7 +678,7 @@ def compare_model(case, r, m):
     for k, (out, mo) in enumerate(zip(r["results"], outs)):
         if merge_na_risk(case["ops"], case["tables"][k]):
             continue
-        if "exn" in out and classify_crash(case["ops"], out) == "C17-F5":
+        if not FIXED and "exn" in out and classify_crash(case["ops"], out) == "C17-F5":
             return None              # pandas/hash-seed effect (known finding), deliberately not in the model
         if mo[0] == "exn":
             if mo[1] == "Unmodelled":
@@ -659,6 +706,23 @@ EVENTS = ["x", "stop", "1", "a"]
 
 def op(name, **p):
     return {"operation": name, "description": "generated", "parameters": p}
+
+
+def names_clash(ops):
+    """a remap_columns operation whose source + destination names are not pairwise distinct"""
+    for o in ops if isinstance(ops, list) else []:
+        if isinstance(o, dict) and o.get("operation") == "remap_columns":
+            p = o["parameters"]
+            cs = list(p.get("source_columns", [])) + list(p.get("destination_columns", []))
+            if len(set(cs)) != len(cs):
+                return True
+    return False
+
+
+def spec_valid(ops):
+    """Lists built from the specification are valid, except -- since the fix of C17-F7 -- those with clashing
+    remap_columns names, which must be reported with a message."""
+    return not (FIXED and names_clash(ops))
 
 
 def gen_table(rng, force_cols=None, nrows=None, few=()):
@@ -853,7 +917,7 @@ def systematic_cases(rng, per_setting):
                     if "match_columns" in o["parameters"]:
                         o["parameters"]["match_columns"] = [c for c in o["parameters"]["match_columns"] if c != "b"]
                 order = ORDERS[j % len(ORDERS)]
-                out.append({"ops": [o], "tables": [ts[i] for i in order], "expect_valid": True,
+                out.append({"ops": [o], "tables": [ts[i] for i in order], "expect_valid": spec_valid([o]),
                             "kind": f"single:{name}"})
     return out
 
@@ -874,7 +938,8 @@ def random_cases(rng, n):
             if sp[0] == "ok":
                 pool = list(sp[1]["cols"]) or pool
         order = rng.choice(ORDERS)
-        out.append({"ops": ops, "tables": [ts[i] for i in order], "expect_valid": True, "kind": f"multi:{len(ops)}"})
+        out.append({"ops": ops, "tables": [ts[i] for i in order], "expect_valid": spec_valid(ops),
+                    "kind": f"multi:{len(ops)}"})
     return out
 
 
@@ -934,7 +999,14 @@ def malformed_cases(rng, n):
                 p["factor_values"] = ["1", "2"]
                 p["factor_names"] = ["e"]
             elif nm == "remap_columns":
-                if rng.random() < 0.5:
+                x = rng.random()
+                if FIXED and x < 0.4:      # names shared or repeated (rejected since the fix of C17-F7)
+                    if rng.random() < 0.5:
+                        p["destination_columns"] = p["destination_columns"][:-1] + [p["source_columns"][0]]
+                    else:
+                        p["source_columns"] = p["source_columns"] + [p["source_columns"][0]]
+                        p["map_list"] = [row[:1] + row for row in p["map_list"]]
+                elif x < 0.7:
                     p["map_list"] = p["map_list"] + [p["map_list"][0] + ["extra"]]
                 else:
                     p["integer_sources"] = ["zz"]
@@ -1017,7 +1089,7 @@ def corpus():
          "tables": [T1, fixed_tables()[0]]},
     ]
     for c in cs:
-        c["expect_valid"] = True
+        c["expect_valid"] = spec_valid(c["ops"])
         c["kind"] = "corpus"
     return cs
 
@@ -1045,6 +1117,8 @@ def nontrivial(case):
 
 def run(tier, seed, res, model_ok=True, proof_ok=True):
     rng = random.Random(seed)
+    if not FIXED:
+        res.known_ids = dict(getattr(res, "known_ids", {}), **LEGACY_FINDINGS)
     per = 10 if tier == "quick" else 60
     nrand = 2000 if tier == "quick" else 25000
     nbad = 300 if tier == "quick" else 3000
@@ -1103,6 +1177,7 @@ def run(tier, seed, res, model_ok=True, proof_ok=True):
                 "non-trivial = specification-valid list and at least one table with rows",
         "samples": [cases[0], cases[len(cases) // 2], cases[-1]],
         "exhaustive": False,
+        "fixed_semantics": bool(FIXED),
         "disagreements_checked": disagreements,
         "correspondence_cases": len(cases) if model_ok else 0,
         "histogram": hist,
